@@ -5,3 +5,6 @@ import IweModel.Props.C03
 #print axioms Iwe.C03.nodeIdAt_total
 #print axioms Iwe.C03.squash_total
 #print axioms Iwe.C03.walk_total
+#print axioms Iwe.C03.reader_total
+#print axioms Iwe.C03.reader_delivers
+#print axioms Iwe.C03.reader_panic_site
